@@ -25,7 +25,8 @@ ODD = ['\u0130', '\u01c5', '\xdf', '\xc9', '\u03a9', '\u0131']   # I-dot, Dz-car
 # U+03A3 (capital sigma) is left out on purpose: its lower-casing depends on the context.
 ALPHABET = [chr(i) for i in range(256)] + WS + ODD + ['\u0307', '\u01c6', '\u03c9', '\u01c4',
                                                        '\ufb01', '\u03bf', '\u03c2', '\u039f', '\u0663',   # fi ligature, omicron, final sigma, Omicron, Arabic-Indic 3
-                                                       '\ue000', '\ufffe']   # a private-use character, a noncharacter (neither has a Unicode name)
+                                                       '\ue000', '\ufffe',   # a private-use character, a noncharacter (neither has a Unicode name)
+                                                       '\uff12']   # fullwidth digit two
 
 _key_re = re.compile(r'^[-:\w\s\.\+]$', re.UNICODE)
 _ws_re = re.compile(r'^\s$', re.UNICODE)
